@@ -503,7 +503,7 @@ def c15(tier):
     n1 = W(tier, 7, 10)
     jobs = [
         {"pkg": "transformer", "harness": "VerifC15_OnePath", "workers": NCPU, "params": {"N": n1}},
-        {"pkg": "transformer", "harness": "VerifC15_Manifest", "workers": NCPU, "params": {"K": W(tier, 2, 3)}},
+        {"pkg": "transformer", "harness": "VerifC15_Manifest", "workers": NCPU, "params": {"K": W(tier, 2, 3), "TRAILING": 1}},
         {"pkg": "transformer", "harness": "VerifC15_TwoPaths", "workers": NCPU, "params": {"N": W(tier, 3, 4)}},
         T("transformer", "VerifC15_Decoded", {"N": W(tier, 12, 24)}, redirects={"net/url.QueryUnescape": "verifUnescapeStub"}),
     ]
@@ -761,7 +761,7 @@ def c13(tier):
 def c08(tier):
     jobs = [T("transformer", "VerifC08_PrinterDegenerate", {"NODES": W(tier, 4, 5), "DEPTH": 2}),
             T("transformer", "VerifC08_ConditionsDegenerate"),
-            T("transformer", "VerifC15_Manifest", {"K": 2}),
+            T("transformer", "VerifC15_Manifest", {"K": 2, "TRAILING": 1}),
             T("transformer", "VerifC16_SyntaxError"),
             T("transformer", "VerifC07_Merge", {"SCEN": 0, "F": 2, "DECLS": 2, "RELS": 1, "CONDS": 1, "FAULTS": 1, "N": 1, "NR": 1}),
             merge_listener_jobs(tier, "VerifC07_Merge", FIRST, which=(0,))[0],
